@@ -27,6 +27,8 @@
    -DH_TOP=k        0 struct, 1 union (concrete: a symbolic struct/union mode is a symbolic type->mode)
    -DH_FEAT=mask    1: members of arithmetic/enum type may be bit-fields (symbolic: whether, width 0..bits,
                     named or not)   2: the first member of a nested/anonymous aggregate is an array
+                    4: the LAST member of every nested/anonymous aggregate is itself an ANONYMOUS struct of two
+                       arithmetic members (size classes -DH_KSUB2): second-level offsets (update_members_offset recursion)
    -DH_KCLS, -DH_KSUB, -DH_EXCL: see below
    -DH_NSUB=n       number of members of a nested/anonymous aggregate (default 2; arithmetic types, bit-fields allowed)
    -DH_MODE=m       0 layout; 1 passing (classification etc.), proved for the declarations whose layout agrees
@@ -81,6 +83,7 @@
 #endif
 #define H_F_BF (H_FEAT & 1)
 #define H_F_SUBARR (H_FEAT & 2)
+#define H_F_DEEP (H_FEAT & 4)
 enum { H_C_ARITH, H_C_PTR, H_C_ENUM, H_C_NESTED, H_C_ANON, H_C_NESTED_U, H_C_ANON_U, H_C_ARR = 8 };
 #define H_IS_ANON(cls) ((cls) == H_C_ANON || (cls) == H_C_ANON_U)
 #define H_IS_UNION(cls) ((cls) >= H_C_NESTED_U)
@@ -105,21 +108,27 @@ static const int h_shape[H_N] = H_SHAPE;
 #endif
 static const int h_kcls[H_N] = H_KCLS;
 static const int h_ksub[H_NSUB] = H_KSUB; /* the same for the members of nested/anonymous aggregates */
+#ifndef H_KSUB2
+#define H_KSUB2 {4, 1}
+#endif
+static const int h_ksub2[2] = H_KSUB2; /* ... and of the second-level anonymous struct (H_FEAT & 4) */
 
 /* ---------------- storage for the c2mir graph ----------------
    One static array per component type and pointers to their ELEMENTS: CBMC then keeps every pointer in the
    graph as address_of(array[k]) and resolves the dereferences statically (pointers to members of a struct
    inside an array become byte-offset expressions that it does not resolve - the symbolic execution of
    set_type_layout then never ends). */
-#define H_NM (H_N * (1 + H_NSUB)) /* member slots: outer i -> i, member j of nested aggregate i -> H_N + i * H_NSUB + j */
+#define H_NM1 (H_N * (1 + H_NSUB)) /* member slots: outer i -> i, member j of nested aggregate i -> H_N + i * H_NSUB + j */
+#define H_NM (H_NM1 + 2 * H_N)      /* ... member q of the second-level anonymous struct inside nested aggregate i -> H_NM1 + 2 * i + q */
 static struct node h_member[H_NM], h_op0[H_NM], h_op1[H_NM], h_op2[H_NM], h_op3[H_NM], h_arr_size[H_NM];
 static struct expr h_width_expr[H_NM], h_arr_size_expr[H_NM];
 static struct decl h_decl[H_NM];
 static struct type h_type[H_NM], h_arr[H_NM];
 static struct arr_type h_arr_type[H_NM];
-static struct node h_tag[1 + H_N], h_id[1 + H_N], h_list[1 + H_N]; /* aggregate 0 = outer, 1 + i = nested in member i */
+static struct node h_tag[1 + 2 * H_N], h_id[1 + 2 * H_N], h_list[1 + 2 * H_N]; /* aggregate 0 = outer, 1 + i = nested in member i, 1 + H_N + i = second level in it */
 #define H_TOP_SLOT(i) (i)
 #define H_SUB_SLOT(i, j) (H_N + (i) * H_NSUB + (j))
+#define H_SUB2_SLOT(i, q) (H_NM1 + 2 * (i) + (q))
 
 static struct type h_top_type, h_void_type[H_NM];
 static int h_n_void;
@@ -129,7 +138,7 @@ static struct c2m_ctx h_ctx;
 static struct check_ctx h_check_ctx;
 
 /* ---------------- abstract description ---------------- */
-static sv_agg h_top, h_sub[H_N];
+static sv_agg h_top, h_sub[H_N], h_sub2[H_N];
 
 static const enum basic_type h_bt[SV_NSCALAR] = {
   [SV_BOOL] = TP_BOOL, [SV_CHAR] = TP_CHAR, [SV_SCHAR] = TP_SCHAR, [SV_UCHAR] = TP_UCHAR, [SV_SHORT] = TP_SHORT,
@@ -191,6 +200,13 @@ static void h_nd_description (void) {
     h_sub[i].is_union = H_IS_UNION (cls);
     h_sub[i].n = H_NSUB; /* concrete: a symbolic member count makes the list links symbolic */
     for (int j = 0; j < H_NSUB; j++) h_nd_scalar (&h_sub[i].m[j], H_C_ARITH, H_F_SUBARR && j == 0, h_ksub[j]);
+    if (H_F_DEEP) { /* the last member becomes an anonymous struct { t0 p0; t1 p1; } */
+      sv_member *l = &h_sub[i].m[H_NSUB - 1];
+      h_sub2[i].is_union = 0;
+      h_sub2[i].n = 2;
+      for (int q = 0; q < 2; q++) { h_nd_scalar (&h_sub2[i].m[q], H_C_ARITH, 0, h_ksub2[q]); H_ASSUME (h_sub2[i].m[q].width < 0); }
+      l->kind = SV_STRUCT; l->width = -1; l->sub = &h_sub2[i]; l->named = 0; l->arr_n = 0;
+    }
     H_ASSUME (h_has_named (&h_sub[i])); /* empty aggregates are a GNU extension outside the model */
     m->kind = h_sub[i].is_union ? SV_UNION : SV_STRUCT;
     m->width = -1;
@@ -229,9 +245,12 @@ static void h_mk_aggr (int g, struct type *t, int is_union, int anon_member_type
   if (g == 0) {
     H_SET_OPS (h_list[g], &h_member[H_TOP_SLOT (0)], &h_member[H_TOP_SLOT (H_N - 1)]);
     for (int i = 0; i + 1 < H_N; i++) h_link (&h_member[H_TOP_SLOT (i)], &h_member[H_TOP_SLOT (i + 1)]);
-  } else {
+  } else if (g <= H_N) {
     H_SET_OPS (h_list[g], &h_member[H_SUB_SLOT (g - 1, 0)], &h_member[H_SUB_SLOT (g - 1, H_NSUB - 1)]);
     for (int j = 0; j + 1 < H_NSUB; j++) h_link (&h_member[H_SUB_SLOT (g - 1, j)], &h_member[H_SUB_SLOT (g - 1, j + 1)]);
+  } else {
+    H_SET_OPS (h_list[g], &h_member[H_SUB2_SLOT (g - 1 - H_N, 0)], &h_member[H_SUB2_SLOT (g - 1 - H_N, 1)]);
+    h_link (&h_member[H_SUB2_SLOT (g - 1 - H_N, 0)], &h_member[H_SUB2_SLOT (g - 1 - H_N, 1)]);
   }
 }
 
@@ -309,7 +328,14 @@ static void h_build_graph (void) {
     if (cls >= H_C_NESTED) {
       h_mk_aggr (1 + i, &h_type[k], H_IS_UNION (cls), H_IS_ANON (cls));
       for (int j = 0; j < H_NSUB; j++) {
-        h_mk_scalar_type (&h_type[H_SUB_SLOT (i, j)], H_C_ARITH, h_sub[i].m[j].kind);
+        if (H_F_DEEP && j == H_NSUB - 1) {
+          h_mk_aggr (1 + H_N + i, &h_type[H_SUB_SLOT (i, j)], 0, 1);
+          for (int q = 0; q < 2; q++) {
+            h_mk_scalar_type (&h_type[H_SUB2_SLOT (i, q)], H_C_ARITH, h_sub2[i].m[q].kind);
+            h_mk_member (H_SUB2_SLOT (i, q), &h_sub2[i].m[q], 0, &h_member[H_SUB_SLOT (i, j)]);
+          }
+        } else
+          h_mk_scalar_type (&h_type[H_SUB_SLOT (i, j)], H_C_ARITH, h_sub[i].m[j].kind);
         h_mk_member (H_SUB_SLOT (i, j), &h_sub[i].m[j], H_F_SUBARR && j == 0, H_IS_ANON (cls) ? &h_member[k] : NULL);
       }
     } else
@@ -412,8 +438,16 @@ void harness (void) {
     const sv_member *m = &h_top.m[i];
     h_check_member (H_TOP_SLOT (i), m, 0, h_top.size);
     if ((h_shape[i] & 7) >= H_C_NESTED)
-      for (int j = 0; j < H_NSUB; j++) /* nested: relative to the nested aggregate; anonymous: relative to the outer one */
+      for (int j = 0; j < H_NSUB; j++) { /* nested: relative to the nested aggregate; anonymous: relative to the outer one */
           h_check_member (H_SUB_SLOT (i, j), &h_sub[i].m[j], m->named ? 0 : m->bitpos, h_sub[i].size);
+          if (H_F_DEEP && j == H_NSUB - 1) { /* members of the second-level anonymous struct: relative to the closest NAMED enclosing aggregate */
+            unsigned long base2 = (m->named ? 0 : m->bitpos) + h_sub[i].m[j].bitpos;
+            for (int q = 0; q < 2; q++) h_check_member (H_SUB2_SLOT (i, q), &h_sub2[i].m[q], base2, h_sub2[i].size);
+#if H_W_DEEP
+            if (h_sub[i].m[j].bitpos != 0 && h_sub2[i].m[1].bitpos != 0) H_WITNESS ("second-level anonymous member at a non-zero offset of a non-zero offset");
+#endif
+          }
+      }
     if (m->width > 0) /* sanity of the oracle itself: a bit-field never leaves an aligned unit of its type */
       H_ASSERT (m->bitpos / (m->size * 8) == (m->bitpos + (unsigned long) m->width - 1) / (m->size * 8), "oracle: bit-field inside one unit");
 #if H_W_BF /* some outer member can be a bit-field and there is another member */
